@@ -206,9 +206,14 @@ class PTable(EngineBase):
             if r < 0.12:
                 return {"op": "pids"}
             if r < 0.30:
-                return {"op": "pid_exists", "n": rng.choice(
+                op = {"op": "pid_exists", "n": rng.choice(
                     pool + pool + [0, -1, -5, 1, 1000, 2 ** 31, 2 ** 64,
-                                   2 ** 31 - 1, 203, 204, 99])}
+                                   2 ** 31 - 1, 202, 203, 204, 205, 99])}
+                if rng.random() < 0.3:
+                    # the Tgid probe itself fails (EACCES / EMFILE / EIO):
+                    # the answer must still be "listed or not"
+                    op["deny"] = rng.choice([13, 24, 5])
+                return op
             if r < 0.70:
                 op = {"op": "iter", "consume": rng.choice(
                     [None, None, None, None, 0, 1, 2, 3])}
@@ -435,7 +440,13 @@ class PTable(EngineBase):
         if kind == "new_bad":
             return psutil.Process(op["pid"])
         if kind == "pid_exists":
-            return psutil.pid_exists(op["n"])
+            if op.get("deny") and 0 < op["n"] < 2 ** 31:
+                k.deny = {"/proc/%d/status" % op["n"]: op["deny"]}
+                st["probe"]("pid_exists_with_failing_tgid_probe")
+            try:
+                return psutil.pid_exists(op["n"])
+            finally:
+                k.deny = {}
         if kind == "pids":
             return psutil.pids()
         if kind == "boot_time":
@@ -1267,6 +1278,7 @@ PTable.PROBES_BY_PROP = {
     "C02": ["two_incarnations_compared", "same_process_across_clock_step",
             "is_running_on_recycled_pid", "ev_clock_step", "ev_reuse"],
     "C04": ["identity_checked", "iterator_overlap",
+            "pid_exists_with_failing_tgid_probe",
             "flagged_recycled_by_is_running", "iter_after_cache_clear",
             "ev_in_vanish", "ev_in_reuse"],
     "C05": ["tree_query_on_recycled_caller", "cycle_in_ppid_map",
